@@ -188,9 +188,11 @@ def check(r, ctx):
 
 
 def s_base(tier, **kw):
+    use = st.one_of(st.just({}), st.just({}), st.just({"reuse": True}),
+                    st.tuples(st.sampled_from(["xml", "pb"]), st.integers(1, 12)).map(lambda t: {"decoy": list(t)}))
     return st.tuples(fp.file_scenario("xml", min_pps=1, **kw), st.booleans(),
-                     st.lists(st.floats(0, 1), min_size=48, max_size=48)).map(
-        lambda t: extremize(dict(t[0], use_scenario_meta=t[1]), t[2]))
+                     st.lists(st.floats(0, 1), min_size=48, max_size=48), use).map(
+        lambda t: extremize(dict(t[0], use_scenario_meta=t[1], **t[3]), t[2]))
 
 
 FACETS = [
